@@ -78,7 +78,7 @@ def expr_key(body, operand, depth=6):
             return expr_key(body, rv['a'][0], depth - 1) + rest
         if o == 'cast':
             return expr_key(body, rv['a'][0], depth - 1) + rest
-        if o == 'ref':
+        if o in ('ref', 'rawptr'):
             return _resolve_place_key(body, rv['pl'], depth - 1) + rest
         if o == 'bin':
             return f"{rv['b'].replace('WithOverflow', '')}({expr_key(body, rv['a'][0], depth - 1)},{expr_key(body, rv['a'][1], depth - 1)})" + rest
@@ -86,6 +86,11 @@ def expr_key(body, operand, depth=6):
             return 'len(' + _resolve_place_key(body, rv['pl'], depth - 1) + ')'
         if o == 'un':
             return f"{rv['u']}({expr_key(body, rv['a'][0], depth - 1)})"
+        if o == 'agg' and rv.get('adt', '').startswith('core::ops::range::Range'):
+            vals = dict(zip(rv.get('fields', ()), rv['a']))
+            lo = expr_key(body, vals['start'], depth - 1) if 'start' in vals else ''
+            hi = expr_key(body, vals['end'], depth - 1) if 'end' in vals else ''
+            return f"{lo}..{'=' if 'Inclusive' in rv['adt'] else ''}{hi}" + rest
         return _place_str(body, pl)
     if kind == 'call':
         f = payload.get('f', '?').split('::')[-1]
@@ -102,9 +107,9 @@ def _resolve_place_key(body, pl, depth):
     if body.local_name(base) or base <= body.argc or depth <= 0:
         return _place_str(body, pl)
     ds = [d for d in body.defs.get(base, ()) if not body.is_cleanup(d[0])]
-    if len(ds) == 1 and ds[0][2] == 'assign' and ds[0][3][1].get('op') in ('ref', 'use'):
+    if len(ds) == 1 and ds[0][2] == 'assign' and ds[0][3][1].get('op') in ('ref', 'rawptr', 'use'):
         rv = ds[0][3][1]
-        src = rv['pl'] if rv.get('op') == 'ref' else op_place(rv['a'][0])
+        src = rv['pl'] if rv.get('op') in ('ref', 'rawptr') else op_place(rv['a'][0])
         if src:
             return _resolve_place_key(body, list(src) + list(pl[1:]), depth - 1)
     if len(ds) == 1 and ds[0][2] == 'call':
@@ -153,7 +158,11 @@ def max_bits(body, operand, depth=6):
                 c = [x for x in (a, b) if x]
                 return min(c) if c else tb
             if o == 'bin' and rv['b'] in ('Shr',):
-                return max_bits(body, rv['a'][0], depth - 1) or tb
+                inner = max_bits(body, rv['a'][0], depth - 1) or tb
+                amt = rv['a'][1].get('k', {}).get('v') if 'k' in rv['a'][1] else None
+                if inner and isinstance(amt, int) and 0 <= amt < inner:
+                    return inner - amt
+                return inner
             if o == 'bin' and rv['b'] in ('Rem',):
                 return max_bits(body, rv['a'][1], depth - 1) or tb
         if kind == 'call':
@@ -165,6 +174,14 @@ def max_bits(body, operand, depth=6):
                 return min(c) if c else tb
             if f.endswith(('::size', '::variable_size_len', '::count_ones', '::leading_zeros', '::trailing_zeros')):
                 return 8
+            # lossless widening: `<u32 as Into<u64>>::into(x)` / `<u64 as From<u32>>::from(x)` keeps the source width
+            m = re.match(r'<(\w+) as core::convert::Into<\w+>>::into$', payload.get('fa', '')) or re.match(r'<\w+ as core::convert::From<(\w+)>>::from$', payload.get('fa', ''))
+            if m and m.group(1) in INT_BITS:
+                inner = max_bits(body, payload['a'][0], depth - 1)
+                return min(inner, INT_BITS[m.group(1)]) if inner else INT_BITS[m.group(1)]
+            # `x?` on a Result<uN, _>: the payload has the declared width of the Ok type
+            if f.endswith('::branch'):
+                return None
     if len(pl) == 2 and isinstance(pl[1], str) and pl[1].startswith('.0:') and len(ds) == 1 and ds[0][2] == 'assign':
         rv = ds[0][3][1]
         if rv.get('op') == 'bin' and rv['b'] in ('AddWithOverflow', 'MulWithOverflow', 'SubWithOverflow'):
@@ -200,7 +217,10 @@ class Site:
         self.why = None
 
     def key(self):
-        return f"{self.body.fn}|{self.kind}|{self.detail}"
+        # stable across unrelated edits of the same function: no MIR local numbers, no basic-block indices
+        d = re.sub(r'@bb\d+', '()', self.detail)
+        d = re.sub(r'(?<![\w.])_\d+\b', '_', d)
+        return f"{self.body.fn}|{self.kind}|{d}"
 
     def where(self):
         return self.body.where(self.bb)
@@ -252,6 +272,187 @@ def _cmp_edges(body, want):
 
 def _strip(k):
     return re.sub(r'^(deref|as_slice|as_ref|clone|into|from)\((.*)\)$', r'\2', k)
+
+
+def _eval_key(k):
+    """integer value of a canonical key that is a constant expression ('7', 'Add(2,8).0', 'Mul(Add(1,2).0,4).0'), else None"""
+    k = k.strip()
+    if re.fullmatch(r'-?\d+', k):
+        return int(k)
+    m = re.fullmatch(r'(Add|Sub|Mul)\((.*)\)(?:\.0)?', k)
+    if not m:
+        return None
+    inner, depth, cut = m.group(2), 0, None
+    for i, ch in enumerate(inner):
+        if ch in '([':
+            depth += 1
+        elif ch in ')]':
+            depth -= 1
+        elif ch == ',' and depth == 0:
+            cut = i
+            break
+    if cut is None:
+        return None
+    a, b = _eval_key(inner[:cut]), _eval_key(inner[cut + 1:])
+    if a is None or b is None:
+        return None
+    return {'Add': a + b, 'Sub': a - b, 'Mul': a * b}[m.group(1)]
+
+
+def _array_len_of_key(body, key):
+    """N when key is `len(<local>)` and that named local is an array `[T; N]` (the `.len()` of an array through the unsizing cast)"""
+    m = re.fullmatch(r'len\((\w+)\)', key)
+    if not m or not body.locals:
+        return None
+    for i in range(len(body.locals)):
+        if body.local_name(i) == m.group(1):
+            mm = re.search(r'; (\d+)\]$', body.local_ty(i))
+            return int(mm.group(1)) if mm and body.local_ty(i).startswith('[') else None
+    return None
+
+
+def _len_keys(base_key):
+    b = _strip(base_key)
+    return {f'len({b})', f'PtrMetadata({b})', f'len({base_key})', f'PtrMetadata({base_key})'}
+
+
+def _len_ge_edges(body, base_key, need_const=None, need_key=None):
+    """CFG edges after which `len(base) >= need` is known from a comparison of the length with a constant (need_const)
+    or with the very expression used as the bound (need_key)."""
+    lk = _len_keys(base_key)
+
+    def want(x, y, o, oa, ob):
+        if x in lk or y in lk:
+            other = y if x in lk else x
+            if y in lk and x not in lk:
+                # c o len  ==  len o' c
+                o = {'Lt': 'Gt', 'Gt': 'Lt', 'Le': 'Ge', 'Ge': 'Le', 'Eq': 'Eq', 'Ne': 'Ne'}.get(o)
+            if need_key is not None and other == need_key:
+                # len o need
+                return {'Lt': 'F', 'Ge': 'T', 'Gt': 'T', 'Eq': 'T', 'Ne': 'F'}.get(o)
+            c = _eval_key(other)
+            if c is None or need_const is None:
+                return None
+            if o == 'Lt':
+                return 'F' if c >= need_const else None
+            if o == 'Ge':
+                return 'T' if c >= need_const else None
+            if o == 'Le':
+                return 'F' if c + 1 >= need_const else None
+            if o == 'Gt':
+                return 'T' if c + 1 >= need_const else None
+            if o == 'Eq':
+                return 'T' if c >= need_const else None
+            if o == 'Ne':
+                return 'F' if c >= need_const else None
+        return None
+    return _cmp_edges(body, want)
+
+
+def _len_ge(body, site_bb, base_key, bound_operand):
+    """reason string when every path to site_bb establishes len(base) >= bound, else None"""
+    kb = expr_key(body, bound_operand)
+    c = _eval_key(kb)
+    if c is not None and c <= 0:
+        return 'bound 0'
+    n = _array_len_of_key(body, f'len({_strip(base_key)})')
+    if c is not None and n is not None and c <= n:
+        return f'constant bound {c} within the {n}-element array {_strip(base_key)}'
+    edges = _len_ge_edges(body, base_key, need_const=c, need_key=None if c is not None else kb)
+    if edges and site_bb not in prims.reach(body, (0,), cut_edges=edges):
+        return f'len({_strip(base_key)}) >= {kb} on every path to the access'
+    return None
+
+
+RANGE_ADTS = {'core::ops::range::Range': ('start', 'end'), 'core::ops::range::RangeTo': (None, 'end'), 'core::ops::range::RangeFrom': ('start', None),
+              'core::ops::range::RangeFull': (None, None)}
+
+
+def _range_of(body, operand):
+    """(start_operand|None, end_operand|None) when the operand is a freshly built Range / RangeTo / RangeFrom / RangeFull"""
+    pl = op_place(operand)
+    if pl is None or len(pl) != 1:
+        return None
+    ds = [d for d in body.defs.get(pl[0], ()) if not body.is_cleanup(d[0])]
+    if len(ds) != 1 or ds[0][2] != 'assign':
+        return None
+    rv = ds[0][3][1]
+    if rv.get('op') != 'agg' or rv.get('adt') not in RANGE_ADTS:
+        return None
+    want_s, want_e = RANGE_ADTS[rv['adt']]
+    vals = dict(zip(rv.get('fields', ()), rv['a']))
+    return (vals.get('start') if want_s else None, vals.get('end') if want_e else None)
+
+
+def _def_call(body, operand, suffixes, hops=4):
+    """the call terminator (dict) defining the operand, looking through refs / copies, when its callee ends with one of suffixes"""
+    pl = op_place(operand)
+    while pl is not None and hops >= 0:
+        hops -= 1
+        ds = [d for d in body.defs.get(pl[0], ()) if not body.is_cleanup(d[0])]
+        if len(ds) != 1:
+            return None
+        bb, idx, kind, payload = ds[0]
+        if kind == 'call':
+            return payload if payload.get('f', '').endswith(suffixes) else None
+        if kind == 'assign':
+            rv = payload[1]
+            if rv.get('op') == 'ref':
+                pl = rv['pl']
+                continue
+            if rv.get('op') in ('use', 'cast'):
+                pl = op_place(rv['a'][0])
+                continue
+        return None
+    return None
+
+
+def _discharge_index(body, s, t):
+    """slice indexing with a range, split_at: the bound is below the length on every path"""
+    f = t.get('f', '')
+    if f.endswith(('::index', '::index_mut')):
+        rg = _range_of(body, t['a'][1])
+        if rg is None:
+            return None
+        start, end = rg
+        base = expr_key(body, t['a'][0])
+        reasons = []
+        if start is not None and end is not None:
+            cs, ce = _eval_key(expr_key(body, start)), _eval_key(expr_key(body, end))
+            if cs is None or ce is None or cs > ce:
+                return None
+            reasons.append(f'constant range {cs}..{ce}')
+        top = end if end is not None else start
+        if top is None:
+            return 'full range'
+        r = _len_ge(body, s.bb, base, top)
+        if r is None:
+            return None
+        return '; '.join(reasons + [r])
+    if f.endswith(('::split_at', '::split_at_mut')):
+        return _len_ge(body, s.bb, expr_key(body, t['a'][0]), t['a'][1])
+    return None
+
+
+def _discharge_unwrap(body, s, t):
+    """`<&[T] as TryInto<[T; N]>>::try_into(&x[a..b]).unwrap()` with constant b - a == N"""
+    c = _def_call(body, t['a'][0], ('::try_into',))
+    if c is None:
+        return None
+    m = re.search(r'TryInto<\[[^;\]]+; (\d+)\]>', c.get('fa', ''))
+    if not m:
+        return None
+    n = int(m.group(1))
+    ix = _def_call(body, c['a'][0], ('::index', '::index_mut'))
+    if ix is None:
+        return None
+    rg = _range_of(body, ix['a'][1])
+    if rg is None or rg[0] is None or rg[1] is None:
+        return None
+    cs, ce = _eval_key(expr_key(body, rg[0])), _eval_key(expr_key(body, rg[1]))
+    if cs is not None and ce is not None and ce - cs == n:
+        return f'try_into::<[_; {n}]>() of a slice taken with the constant range {cs}..{ce}'
+    return None
 
 
 def discharge(facts, s):
@@ -343,8 +544,15 @@ def discharge(facts, s):
         kl, ki = expr_key(body, ln), expr_key(body, ix)
         lv = ln['k'].get('v') if 'k' in ln else None
 
+        lks = _len_keys(kl[kl.index('(') + 1:-1]) if kl.startswith(('PtrMetadata(', 'len(')) else set()
+
         def want(x, y, o, oa, ob):
-            if x == ki and (y == kl or (lv is not None and 'k' in ob and ob['k'].get('v') is not None and ob['k']['v'] <= lv)):
+            if x == ki and y in lks:
+                return {'Lt': 'T', 'Ge': 'F'}.get(o)
+            if y == ki and x in lks:
+                return {'Gt': 'T', 'Le': 'F'}.get(o)
+            if x == ki and (y == kl or (lv is not None and 'k' in ob and ob['k'].get('v') is not None and ob['k']['v'] <= lv)
+                            or (lv is not None and _array_len_of_key(body, y) == lv)):
                 return {'Lt': 'T', 'Ge': 'F'}.get(o)
             if y == ki and x == kl:
                 return {'Gt': 'T', 'Le': 'F'}.get(o)
@@ -352,6 +560,12 @@ def discharge(facts, s):
         edges = _cmp_edges(body, want)
         if edges and s.bb not in prims.reach(body, (0,), cut_edges=edges):
             return f'{ki} < {kl} on every path to the access'
+        ci = _eval_key(ki)
+        if ci is not None and ci >= 0 and kl.startswith(('PtrMetadata(', 'len(')):
+            base = kl[kl.index('(') + 1:-1]
+            edges = _len_ge_edges(body, base, need_const=ci + 1)
+            if edges and s.bb not in prims.reach(body, (0,), cut_edges=edges):
+                return f'len({base}) > {ci} on every path to the access'
         mb = max_bits(body, ix)
         if lv is not None and mb is not None and (1 << mb) <= lv:
             return f'index bounded to {mb} bits, array length {lv}'
@@ -376,6 +590,10 @@ def discharge(facts, s):
                 if edges and s.bb not in prims.reach(body, (0,), cut_edges=edges):
                     return f'{kd} != 0 on every path to the division'
         return None
+    if s.kind.startswith('index:'):
+        return _discharge_index(body, s, t)
+    if s.kind == 'unwrap':
+        return _discharge_unwrap(body, s, t)
     if s.kind == 'panic':
         # `_ => unreachable!()` after a switch that lists every value the scrutinee can take
         reason = _dead_default(facts, body, s.bb)
